@@ -383,14 +383,38 @@ def extra_cases(chk: core.Check):
 
 
 def run(chk: core.Check) -> int:
+    from tools import extract
+    ext = extract.main(['Labels'])
+    chk.coverage['extract_digest'] = {k: v['digest'] for k, v in ext.items()}
+    chk.coverage['tables'] = {'client_fields': len(ext['Labels']['data']['fields']), 'writer_labels': len(ext['Labels']['data']['labels'])}
     clean = chk.prove(['GeoVerif.Properties.C10'])
+    if not clean:
+        # name the (field, label) pairs that break `labels_safe` (same relation, evaluated on the extracted tables) for the replay record
+        def after_runs(x):
+            return [x[i + 4:] for i in range(len(x)) if x.startswith('    ', i)]
+
+        def inner(x):
+            return [x[:i] for i in range(len(x)) if x.startswith(': ', i)]
+        fields = set(ext['Labels']['data']['fields'])
+        bad = []
+        for b in ext['Labels']['data']['labels']:
+            foreign = after_runs(b) + inner(b) + [y for x in inner(b) for y in after_runs(x)]
+            bad += [(f, b) for f in foreign if f in fields]
+            if b.startswith(' '):
+                bad.append(('<leading blank>', b))
+        if bad:
+            chk.notes.append('labels_safe is broken by (client field, writer label): ' + '; '.join(f'{f!r} <- {b!r}' for f, b in bad[:6]))
+            for f, b in bad[:3]:
+                chk.broken('C10/proof/labels-safe', f'a line labelled {b!r} also carries the marker of client field {f!r}: the field can be filled from that line',
+                           {'client_field': f, 'writer_label': b, 'theorem': 'GeoVerif.C10.labels_safe'}, 'proof-break')
     quick = chk.tier == 'quick'
     cases = cases_for(chk, 36 if quick else 96, 20 if quick else 400, 10 if quick else 40) + extra_cases(chk)
     evaluate(chk, cases, 12 if quick else 80)
     chk.assumptions += ['"exactly the number printed": compared as Python numbers of the same type (int without a decimal point, float with), i.e. float("1.50") == 1.5',
                         'string-valued fields (end-use option, reservoir model …) are compared only by presence',
                         'JSON vs report: the quantities both carry are taken from C09\'s label specification (scalar entries whose OutputParameter name is a JSON key)']
-    chk.trusted += ['the independent tokeniser of this harness (str.split on the text after the exact label)', 'CPython csv / json modules']
+    chk.trusted += ['the independent tokeniser of this harness (str.split on the text after the exact label)', 'CPython csv / json modules',
+                    'tools/extract.py (AST walk over the writers for the static labels, parameter names, client field table)']
     return chk.finish(rule=RULE)
 
 
